@@ -144,6 +144,7 @@ FIRING = [
     ("hma-zero-warm-up", "jesse/indicators/hma.py", "    wma = np.full(arr.shape, np.nan)\n", "    wma = np.zeros_like(arr)\n", ["C15"]),
     ("smma-length-dependent-scale", "jesse/indicators/smma.py", "        out[t] = num / den\n", "        out[t] = num / den * (1 + 0.001 * n)\n", ["C13"]),
     ("fast-fill-before-clock", BT, "                            store.app.time = storable_temp_candle[0] + 60_000\n                            order.execute()\n", "                            order.execute()\n                            store.app.time = storable_temp_candle[0] + 60_000\n", ["C01", "C12"]),
+    ("ma-slices-1d-series", "jesse/indicators/ma.py", "    if len(candles.shape) != 1:\n        candles = slice_candles(candles, sequential)\n", "    candles = slice_candles(candles, sequential)\n", ["C15"]),
     ("dna-append-multiple-empty", "jesse/libs/dynamic_numpy_array/__init__.py", "        if len(items) == 0:\n            return\n", "", ["C18"]),
     ("dna-delete-raw-index", "jesse/libs/dynamic_numpy_array/__init__.py", "        if index < 0:\n            index = (self.index + 1) - abs(index)\n        if index > self.index or index < 0:\n            raise IndexError('list assignment index out of range')\n\n        self.array = np.delete", "        self.array = np.delete", ["C18"]),
 ]
